@@ -4,36 +4,40 @@ Decided:
   R20.1 registry: ``ProxyAuth()`` is a default addon and implements the three methods the hook classes dispatch to
         (HttpRequestHeadersHook -> requestheaders, HttpConnectHook -> http_connect, Socks5AuthHook -> socks5_auth);
         ``Socks5AuthData.valid`` defaults to False (no addon => not authenticated).
-  R20.2 enforcement in the core ("deny mode": a client that never authenticates, i.e. every requestheaders / http_connect
-        hook leaves the auth-required response on the flow, every socks5_auth hook leaves data.valid False):
-        HTTP   typestate exploration of the HttpStream model - no reachable transition yields GetHttpConnection,
-               OpenConnection, a SendHttp to the server or starts a child layer; a request that is read to its end is
-               answered (response headers sent to the client); a refused CONNECT fires HttpConnectErrorHook.
-        SOCKS5 typestate exploration of the Socks5Proxy model with proxyauth set - method 0x02 is the only one offered;
-               state_connect / server.address / OpenConnection / child layer are reached only after Socks5AuthHook with
-               data.valid true; on data.valid false the reply is 01 01, the connection is closed, the layer is done.
-  R20.3 decision tables of ProxyAuth (abstract evaluation, exceptions inside the try block included):
-        requestheaders / http_connect / socks5_auth / authenticate_http over validator {unset,set} x credentials
-        {accepted, refused} x connection {authenticated before, not} x replay x every ProxyMode class:
-        authentication is skipped only without validator, for connections in ``self.authenticated`` or replays; accepted
-        => the credential header that was parsed is deleted, no response, True; every other path => ``flow.response`` =
-        auth-required response and False; 407/Proxy-Authenticate/Proxy-Authorization for Regular+Upstream,
-        401/WWW-Authenticate/Authorization otherwise; ``self.authenticated`` / ``data.valid`` written only on success.
-  R20.4 ``parse_http_basic_auth`` splits the decoded credentials at the FIRST colon only (F-C20, repaired).
+  R20.2 enforcement in the core ("deny mode": a client that never authenticates):
+        HTTP   typestate exploration of the HttpStream model (every requestheaders / http_connect hook leaves the auth-required
+               response on the flow) - no reachable transition yields GetHttpConnection, OpenConnection, a SendHttp to the server
+               or starts a child layer; a request that is read to its end is answered (response headers sent to the client); a
+               refused CONNECT fires HttpConnectErrorHook.
+        SOCKS5 ``Socks5Proxy`` is *interpreted* (pyint; helpers, tables, match, renamed private methods are followed like the
+               original) with proxyauth set on every handshake of the shared SOCKS5 domain, on clients that try to skip the
+               authentication step, and on several segmentations each: method 0x02 is the only one offered;
+               ``server.address`` / OpenConnection / the next layer are reached only after a Socks5AuthHook whose credentials the
+               hook accepted; refused credentials => reply 01 01, the client connection is closed, the layer has ended (later
+               data has no effect).
+  R20.3 decision tables of ProxyAuth: requestheaders / http_connect / authenticate_http / socks5_auth are interpreted on concrete
+        flows over validator {unset, accepting exactly one pair, raising} x 14 credential placements {missing, empty, malformed
+        base64, other scheme, no colon, wrong, valid (password with ':'), in the other header, ...} x connection {authenticated
+        before, not} x replay x every ProxyMode class: authentication is skipped only without validator, for connections in
+        ``self.authenticated`` or replays; accepted => no response, the mode's credential header deleted (the other one kept);
+        everything else (exceptions of the parser / validator included) => ``flow.response`` = 407 + Proxy-Authenticate for
+        Regular/Upstream, 401 + WWW-Authenticate otherwise; ``self.authenticated`` / ``data.valid`` written only on success.
+  R20.4 the decoded Basic credentials are split at the FIRST colon only (F-C20, repaired): 8 (user, password) pairs with colons in
+        the password reach the validator unchanged (interpreted end to end through requestheaders).
   R20.5 ``ProxyAuth()`` precedes ``UpstreamAuth()`` in ``default_addons`` (the client's Proxy-Authorization is consumed and
         removed before upstream credentials are attached).
   R20.6 an unauthenticated request is answered, never aborted: no exception escapes the HttpStream model in deny mode
         (F-C20b: start_request_stream raises when stream_large_bodies turned streaming on before the 407 was set).
-NOT decided: validator implementations (htpasswd, LDAP), base64/UTF-8 decoding of concrete headers, non-HTTP payloads in
-reverse mode, addons that remove ``flow.response`` again after ProxyAuth.
+  R20.7 histories: the hook methods interpreted over every sequence of <= 3 hook invocations on one connection.
+NOT decided: validator implementations (htpasswd, LDAP), non-HTTP payloads in reverse mode, addons that remove
+``flow.response`` again after ProxyAuth, SOCKS5 streams outside the domain.
 """
 
 from __future__ import annotations
 
 import ast
+from types import SimpleNamespace as _NS
 
-from ..core import AnalysisError
-from ..core import norm
 from ..httpstream import HttpStreamSpec
 from ..httpstream import init_env
 from ..httpstream import REL as HTTP
@@ -43,44 +47,48 @@ from ..layerx import Monitor
 from ..model import attr_chain
 from ..model import last_attr
 from ..model import qual_of
-from ..model import walk_in_order
 from ..paths import C
-from ..paths import Engine
 from ..paths import is_const
 from ..paths import R
-from ..paths import State
 from ..paths import UNKNOWN
+from ..core import AnalysisError
+from ..pyint import ClassRef
+from ..pyint import DictRec
+from ..pyint import Raised
+from ..pyint import Rec
 from ..selftest import Mutant
-from ._helpers_C import class_isa
+from ._helpers_C import ADDONS_INIT
+from ._helpers_C import cut
 from ._helpers_C import default_addon_order
-from ._helpers_C import explore_socks5
-from ._helpers_C import hook_method
-from ._helpers_C import is_obj
-from ._helpers_C import isinstance_targets
+from ._helpers_C import hook_method_sem
+from ._helpers_C import LayerInterp
 from ._helpers_C import mode_classes
-from ._helpers_C import MODE_SPECS
 from ._helpers_C import MODES
-from ._helpers_C import OBJ
-from ._helpers_C import Socks5Spec
-from ._helpers_C import socks5_init_env
-from ._helpers_C import StrictSpec
+from ._helpers_C import OpenRec
+from ._helpers_C import socks5_auth_msg
+from ._helpers_C import socks5_boundaries
+from ._helpers_C import socks5_domain
+from ._helpers_C import socks5_reference
+from ._helpers_C import socks5_request
+from ._helpers_C import Socks5Cfg
+from ._helpers_C import Socks5World
 
 PROP = "C20"
 REG = {
     "strength": "partial",
-    "technique": "typestate exploration of the HttpStream and Socks5Proxy models in 'deny mode' + decision-table extraction of "
-    "ProxyAuth's hook methods by abstract evaluation (exception edges included) + split-idiom check + addon/hook registry",
+    "technique": "typestate exploration of the HttpStream model in 'deny mode' + interpretation (pyint) of Socks5Proxy with proxyauth set "
+    "over a domain of handshakes x segmentations + decision tables of ProxyAuth's hook methods by interpreting them on concrete flows "
+    "(validator x credential placement x mode x authenticated x replay, histories of <= 3 hooks) + addon/hook registry",
     "claim": "with proxyauth set and a client that never presents accepted credentials no reachable transition of the extracted "
-    "HttpStream / Socks5Proxy models forwards anything upstream or starts a child layer, and a completed request is answered; "
-    "ProxyAuth's methods reject on every path except validator-accepted credentials, authenticated connections and replays, "
+    "HttpStream model and no interpreted run of Socks5Proxy forwards anything upstream or starts a child layer, and a completed request "
+    "is answered; ProxyAuth's methods reject in every cell except validator-accepted credentials, authenticated connections and replays, "
     "remove the credential header on success, answer 407/401 per mode and split credentials at the first colon only.",
-    "note": "Models are over-approximations extracted from source on every run (refinements listed in the evidence). Validators, "
-    "base64 decoding and the addon manager's dispatch are trusted.",
+    "note": "The HttpStream model is an over-approximation extracted from source on every run (refinements listed in the evidence); the SOCKS5 "
+    "and ProxyAuth rules are bounded by their listed domains. Validators, base64 decoding and the addon manager's dispatch are trusted.",
 }
 
 PA = "mitmproxy/addons/proxyauth.py"
 HK = "mitmproxy/proxy/layers/http/_hooks.py"
-STATUS = "mitmproxy/net/http/status_codes.py"
 FORWARD = ("getconn", "open", "child_start")
 
 
@@ -93,6 +101,24 @@ class DenyHttpSpec(HttpStreamSpec):
     auth-required response (status 407/401); other addons do not remove it; streaming flags stay arbitrary."""
 
     AUTH_HOOKS = ("HttpRequestHeadersHook", "HttpConnectHook")
+
+    def value(self, expr, st, depth):
+        # `a and b` / `a or b` evaluate to one of their operands: exact whenever the operands up to the deciding one are known constants
+        # (a decision split into temporaries - `busy = x in (..)`; `flag = isinstance(..) and busy and not done` - stays decided)
+        if isinstance(expr, ast.BoolOp):
+            is_and = isinstance(expr.op, ast.And)
+            last = None
+            for operand in expr.values:
+                v = self.value(operand, st, depth)
+                if not is_const(v):
+                    last = None
+                    break
+                if bool(v[1]) != is_and:
+                    return v
+                last = v
+            if last is not None:
+                return last
+        return HttpStreamSpec.value(self, expr, st, depth)
 
     def events(self, node, st):
         out = HttpStreamSpec.events(self, node, st)
@@ -234,382 +260,313 @@ def r20_2_http(ctx):
 
 
 # ---------------------------------------------------------------------------------------------------
-# R20.2  SOCKS5
+# R20.2  SOCKS5: the layer is interpreted (pyint) with proxyauth configured; whatever the client sends, in whatever segmentation
 
 
-def r20_2_socks(ctx):
-    spec = Socks5Spec(ctx.model)
-    entry = ctx.func(MODES, "Socks5Proxy._handle_event")
-    for nme in ("state_greet", "state_auth", "state_connect", "socks_err"):
-        ctx.func(MODES, f"Socks5Proxy.{nme}")
-    where = (MODES, "Socks5Proxy", entry)
-    states, trans, eng = explore_socks5(spec, entry, socks5_init_env(**{"$proxyauth": C(True)}))
-    ctx.paths += len(trans)
-    ctx.require(len(trans) >= 20, f"SOCKS5 exploration collapsed to {len(trans)} transitions")
-    ctx.assume("SOCKS5: proxyauth configured => the option is registered; Socks5AuthHook outcome (data.valid) is arbitrary")
-    bad = {}
-    n_deny = n_ok = 0
-    gate = ("addr:=", "open", "child_start", "child_data", "child:=")
-    for src, kind, tr, dst, exc in trans:
-        if exc is not None:
-            bad.setdefault(f"{exc} escapes the SOCKS5 layer", tr)
-            continue
-        authed = src.get("self.state") == R("self.state_connect")
-        hooked = False
-        for i, e in enumerate(tr):
-            if e[0] == "hook" and e[1] == "Socks5AuthHook":
-                hooked = True
-            elif e[0] == "c" and e[1] == "valid":
-                if not hooked:
-                    bad.setdefault("data.valid is tested before Socks5AuthHook was yielded", tr)
-                if e[3]:
-                    authed = True
-                    n_ok += 1
-                else:
-                    n_deny += 1
-                    rest = tr[i + 1 :]
-                    if not any(x[0] == "send" and x[1] == "client" and x[2] == C(b"\x01\x01") for x in rest):
-                        bad.setdefault("failed authentication is not answered with 01 01", tr)
-                    if not any(x[0] == "close" and x[1] == "client" for x in rest):
-                        bad.setdefault("failed authentication does not close the client connection", tr)
-                    if dst.get("self._handle_event") != R("self.done"):
-                        bad.setdefault("failed authentication does not end the layer (handler is not `done`)", tr)
-                    if any(x[0] in gate or x[0] == "enter" and x[1] == "self.state_connect" for x in rest):
-                        bad.setdefault("request processing continues after a failed authentication", tr)
-            elif e[0] in gate or (e[0] == "enter" and e[1] == "self.state_connect") or (e[0] == "set" and e[1] == "self.state" and e[2] == "self.state_connect"):
-                if not authed:
-                    bad.setdefault(f"{e[0]} {e[1] if len(e) > 1 and isinstance(e[1], str) else ''} reached without a successful Socks5AuthHook".replace("  ", " "), tr)
-            elif e[0] == "send" and e[1] == "client" and is_const(e[2]) and isinstance(e[2][1], bytes):
-                p = e[2][1]
-                if len(p) == 2 and p[0] == 5 and p[1] not in (0x02, 0xFF):
-                    bad.setdefault(f"method selection {p!r} offered although proxyauth is set", tr)
-    if not bad:
-        ctx.require(n_deny >= 1 and n_ok >= 1, "SOCKS5 model: no path tests data.valid (state_auth changed shape)")
-    for msg, tr in sorted(bad.items()):
-        ctx.fail("R20.2", where, "SOCKS5: " + msg, "an unauthenticated SOCKS5 client gets further than the authentication step", trace=[str(e) for e in tr])
-    if not bad:
-        ctx.ok("R20.2", f"SOCKS5: {len(trans)} transitions with proxyauth set; connect phase only after Socks5AuthHook with data.valid; failure => 01 01, close, done")
-
-
-# ---------------------------------------------------------------------------------------------------
-# R20.3 decision tables of ProxyAuth
-
-
-class AuthTableSpec(StrictSpec):
-    allowed_stmts = StrictSpec.allowed_stmts + (ast.Try, ast.Delete)
-    max_depth = 4
-
-    def __init__(self, model, cell, status_consts):
-        super().__init__()
-        self.model = model
-        self.cell = cell
-        self.status_consts = status_consts
-        self.mod = model.module(PA)
-
-    # exception edges: every statement of a try body may raise into an `except Exception`
-    def raises_into(self, stmt, handler_names, st):
-        return ["Exception"] if any(h in ("Exception", "BaseException") for h in handler_names) else []
-
-    def handler_event(self, h, ename, st):
-        return ("except",)
-
-    def inline(self, call, st, depth):
-        f = call.func
-        if isinstance(f, ast.Attribute) and isinstance(f.value, ast.Name) and f.value.id == "self" and f.attr == "authenticate_http":
-            return self.model.func(PA, "ProxyAuth.authenticate_http")
-        if isinstance(f, ast.Name) and f.id in ("is_http_proxy", "http_auth_header", "make_auth_required_response"):
-            d = self.mod.get(f.id)
-            if isinstance(d, ast.FunctionDef):
-                return d
-        return None
-
-    def path_of(self, expr, st, depth):
-        """'flow.request.headers' for attribute chains rooted in a name bound to the flow / socks data object."""
-        parts = []
-        e = expr
-        while isinstance(e, ast.Attribute):
-            parts.append(e.attr)
-            e = e.value
-        if isinstance(e, ast.Name):
-            base = st.get(f"{depth}:{e.id}")
-            if is_obj(base, "root"):
-                return ".".join([base[2]] + list(reversed(parts)))
-        return None
-
-    def atom(self, expr, st, depth):
-        ch = attr_chain(expr)
-        if ch == "self.validator":
-            return OBJ("validator") if self.cell["validator"] else C(None)
-        if ch == "self.authenticated":
-            return OBJ("authenticated")
-        if ch.startswith("status_codes.") or ch.startswith("http.status_codes."):
-            name = ch.split(".")[-1]
-            if name in self.status_consts:
-                return C(self.status_consts[name])
-        p = self.path_of(expr, st, depth) if isinstance(expr, ast.Attribute) else None
-        if p is not None:
-            if p == "flow.client_conn.proxy_mode":
-                return OBJ("mode", self.cell["mode"])
-            if p == "flow.is_replay":
-                return C(self.cell["replay"])
-            if p == "flow.request.headers":
-                return OBJ("reqheaders")
-            if p == "flow.metadata":
-                return OBJ("metadata")
-            if p in ("flow.client_conn", "flow.request", "data.client_conn", "data.username", "data.password"):
-                return OBJ("path", p)
-            if p in ("flow.response", "data.valid"):
-                raise AnalysisError(f"ProxyAuth: decision reads {p}, which the table does not model")
-            raise AnalysisError(f"ProxyAuth: unmodelled attribute {norm(expr)}")
-        if isinstance(expr, ast.Dict):
-            items = []
-            for k, v in zip(expr.keys, expr.values):
-                if not (isinstance(k, ast.Constant) and isinstance(k.value, str)):
-                    raise AnalysisError(f"ProxyAuth: unmodelled dict key in {norm(expr)}")
-                items.append(k.value)
-            return OBJ("dict", tuple(items))
-        if isinstance(expr, ast.Subscript):
-            base = self.value(expr.value, st, depth)
-            if is_obj(base, "metadata") or is_obj(base, "authenticated"):
-                return OBJ("stored")
-            return None
-        if isinstance(expr, ast.Tuple):
-            return OBJ("tuple", *[self.value(e, st, depth) for e in expr.elts])
-        if isinstance(expr, ast.Call):
-            f = expr.func
-            if attr_chain(f) == "self.validator":
-                if not self.cell["validator"]:
-                    self.problems.append("self.validator is called although it is None")
-                args = [self.value(a, st, depth) for a in expr.args]
-                want_http = [OBJ("cred", "user"), OBJ("cred", "password")]
-                want_socks = [OBJ("path", "data.username"), OBJ("path", "data.password")]
-                if args not in (want_http, want_socks):
-                    self.problems.append(f"validator called with {norm(expr)}: not (username, password) in this order")
-                return C(self.cell["accepts"])
-            if isinstance(f, ast.Attribute) and f.attr == "get" and is_obj(self.value(f.value, st, depth), "reqheaders") and expr.args:
-                k = self.value(expr.args[0], st, depth)
-                if not (is_const(k) and isinstance(k[1], str)):
-                    raise AnalysisError(f"ProxyAuth: header name not decided in {norm(expr)}")
-                return OBJ("headervalue", k[1])
-            if last_attr(f) == "make" and attr_chain(f).endswith("Response.make") and len(expr.args) >= 3:
-                status = self.value(expr.args[0], st, depth)
-                hdrs = self.value(expr.args[2], st, depth)
-                if not (is_const(status) and is_obj(hdrs, "dict")):
-                    raise AnalysisError(f"ProxyAuth: unmodelled response construction {norm(expr)}")
-                return OBJ("response", status[1], hdrs[2])
-            if isinstance(f, ast.Name) and f.id == "parse_http_basic_auth":
-                a = self.value(expr.args[0], st, depth) if expr.args else UNKNOWN
-                if not is_obj(a, "headervalue"):
-                    raise AnalysisError(f"ProxyAuth: parse_http_basic_auth argument is not a request header value: {norm(expr)}")
-                return OBJ("parsed", a[2])
-        return None
-
-    def decide_isinstance(self, cond, st, depth):
-        v = self.value(cond.args[0], st, depth)
-        if is_obj(v, "mode"):
-            return any(class_isa(self.model, MODE_SPECS, v[2], n) for n in isinstance_targets(cond))
-        return None
-
-    def decide_leaf(self, cond, st, depth):
-        if isinstance(cond, ast.Compare) and len(cond.ops) == 1 and isinstance(cond.ops[0], (ast.In, ast.NotIn)):
-            if is_obj(self.value(cond.comparators[0], st, depth), "authenticated"):
-                if self.value(cond.left, st, depth) != OBJ("path", "flow.client_conn"):
-                    raise AnalysisError(f"ProxyAuth: unmodelled membership test {norm(cond)}")
-                r = self.cell["authd"]
-                return r if isinstance(cond.ops[0], ast.In) else not r
-        return StrictSpec.decide_leaf(self, cond, st, depth)
-
-    def bind_tuple(self, target, v, stmt, st, depth):
-        if is_obj(v, "parsed") and len(target.elts) == 3 and all(isinstance(e, ast.Name) for e in target.elts):
-            st = st.emit(("parsed", v[2]))
-            st = st.set(f"{depth}:{target.elts[0].id}", OBJ("cred", "scheme"))
-            st = st.set(f"{depth}:{target.elts[1].id}", OBJ("cred", "user"))
-            return st.set(f"{depth}:{target.elts[2].id}", OBJ("cred", "password"))
-        return StrictSpec.bind_tuple(self, target, v, stmt, st, depth)
-
-    def write_event(self, target, value, stmt, st, depth):
-        if isinstance(target, ast.Subscript):
-            base = self.value(target.value, st, depth)
-            if is_obj(base, "metadata"):
-                return ("meta",)
-            if is_obj(base, "authenticated"):
-                key = self.value(target.slice, st, depth)
-                if key not in (OBJ("path", "flow.client_conn"), OBJ("path", "data.client_conn")):
-                    raise AnalysisError(f"ProxyAuth: unmodelled key in {norm(stmt)}")
-                return ("authd:=",)
-        if isinstance(target, ast.Attribute):
-            p = self.path_of(target, st, depth)
-            if p == "flow.response":
-                if not is_obj(value, "response"):
-                    raise AnalysisError(f"ProxyAuth: flow.response is set to an unmodelled value in {norm(stmt)}")
-                return ("response:=", value[2], value[3])
-            if p == "data.valid":
-                if not is_const(value):
-                    raise AnalysisError(f"ProxyAuth: data.valid is set to an unmodelled value in {norm(stmt)}")
-                return ("valid:=", value[1])
-        raise AnalysisError(f"ProxyAuth: unmodelled write {norm(stmt)}")
-
-    def effect(self, stmt, st, depth):
-        if isinstance(stmt, ast.Delete):
-            for t in stmt.targets:
-                if isinstance(t, ast.Subscript) and is_obj(self.value(t.value, st, depth), "reqheaders"):
-                    k = self.value(t.slice, st, depth)
-                    if not (is_const(k) and isinstance(k[1], str)):
-                        raise AnalysisError(f"ProxyAuth: deleted header name not decided in {norm(stmt)}")
-                    st = st.emit(("delhdr", k[1]))
-                else:
-                    raise AnalysisError(f"ProxyAuth: unmodelled delete {norm(stmt)}")
-            return st
-        return StrictSpec.effect(self, stmt, st, depth)
-
-
-def auth_expect(cell):
-    is_proxy = cell["mode"] in ("RegularMode", "UpstreamMode")
-    hdr = "Proxy-Authorization" if is_proxy else "Authorization"
-    resp = (407, ("Proxy-Authenticate",)) if is_proxy else (401, ("WWW-Authenticate",))
-    return hdr, resp
-
-
-def classify(trace, cell):
-    """-> 'accept' | 'reject' | 'skip' | 'bad: reason' for one path of a method that may authenticate."""
-    hdr, resp = auth_expect(cell)
-    dels = [e[1] for e in trace if e[0] == "delhdr"]
-    resps = [(e[1], e[2]) for e in trace if e[0] == "response:="]
-    parsed = [e[1] for e in trace if e[0] == "parsed"]
-    if resps:
-        if dels:
-            return "bad: sets the auth-required response AND deletes the credential header"
-        if resps != [resp]:
-            return f"bad: refusal answers {resps} instead of status {resp[0]} with {resp[1][0]}"
-        return "reject"
-    if dels:
-        if dels != [hdr]:
-            return f"bad: deletes header {dels} instead of {hdr}"
-        if parsed != [hdr]:
-            return f"bad: credentials are parsed from {parsed} but {hdr} is the credential header"
-        return "accept"
-    return "skip"
-
-
-def run_all(spec, fn, bindings):
-    eng = Engine(spec)
-    o = eng.run(fn, State(), bindings)
+def socks_cases(thorough):
+    """(name, stream, cfg): every handshake of the shared SOCKS5 domain that runs with proxyauth, each also against a hook that
+    refuses everything, plus clients that try to get past the authentication step."""
+    V4 = socks5_request(1, bytes([10, 0, 0, 1]), 80)
+    ok = socks5_auth_msg(b"user", b"p:w")
     out = []
-    for s in o.ret:
-        out.append(("return", s))
-    for s in o.exc:
-        e = s.get("$exc")
-        out.append(("raise:" + (e[1] if is_const(e) else "?"), s))
+    for name, stream, cfg in socks5_domain(thorough):
+        if cfg.proxyauth:
+            out.append((name, stream, cfg))
+            if cfg.accept is not None:
+                out.append((name + " (hook refuses)", stream, Socks5Cfg(True, None, cfg.eager, cfg.err)))
+    deny = Socks5Cfg(True, None)
+    lazy_deny = Socks5Cfg(True, None, eager=False)
+    some = Socks5Cfg(True, ("user", "p:w"), eager=False)
+    out += [
+        ("request instead of credentials", b"\x05\x01\x02" + V4 + V4 + b"GET / HTTP/1.1\r\n\r\n", lazy_deny),
+        ("no-auth method only, then request", b"\x05\x01\x00" + V4 + b"data", deny),
+        ("both methods offered, request pipelined", b"\x05\x02\x00\x02" + V4 + V4, lazy_deny),
+        ("refused, then valid credentials pipelined", b"\x05\x01\x02" + socks5_auth_msg(b"user", b"bad") + ok + V4 + b"x", some),
+        ("refused, request pipelined", b"\x05\x01\x02" + socks5_auth_msg(b"a", b"b") + V4 + b"payload", lazy_deny),
+        ("empty credentials, request pipelined", b"\x05\x01\x02" + socks5_auth_msg(b"", b"") + V4 + b"payload", some),
+        ("accepted after greeting with many methods", b"\x05\x03\x00\x01\x02" + ok + V4 + b"x", some),
+    ]
     return out
 
 
+def r20_2_socks(ctx):
+    thorough = ctx.tier == "thorough"
+    ctx.func(MODES, "Socks5Proxy._handle_event")
+    world = Socks5World(ctx.model)
+    where = (MODES, "Socks5Proxy", ctx.model.cls(MODES, "Socks5Proxy"))
+    ctx.assume("SOCKS5: proxyauth configured => the option is registered; the Socks5AuthHook sets data.valid exactly for the credentials the validator accepts (R20.3)")
+    bad = {}
+    n_runs = n_deny = n_ok = n_nomethod = 0
+    gate = ("open", "child_start", "child_data", "child_event")
+    for name, stream, cfg in socks_cases(thorough):
+        segs = [(), tuple(range(1, len(stream)))] + [(i,) for i in socks5_boundaries(stream, cfg) if 0 < i < len(stream)]
+        bnd = [i for i in socks5_boundaries(stream, cfg) if 0 < i < len(stream)]
+        if len(bnd) > 1:
+            segs.append(tuple(bnd))
+        segs += [(i,) for i in range(1, len(stream), 3 if not thorough else 1)]
+        for cuts in dict.fromkeys(segs):
+            steps, final = world.run(cut(stream, cuts), cfg, expect_done=socks5_reference(stream, cfg)["state"] == "done")
+            n_runs += 1
+            tag = f"{name} [{cfg!r}], stream {stream.hex(' ')} cut at {list(cuts) if len(cuts) < 8 else 'every byte'}"
+            trace = [e for st in steps for e in st.trace]
+            exc = next((st.exc for st in steps if st.exc), None)
+            if exc:
+                bad.setdefault(f"{exc} escapes the SOCKS5 layer", tag)
+                continue
+            authed = False
+            refused_at = None
+            addr_seen = False
+            for i, e in enumerate(trace):
+                if e[0] == "hook":
+                    if cfg.valid(e[2], e[3]):
+                        authed = True
+                        n_ok += 1
+                    else:
+                        n_deny += 1
+                        refused_at = i
+                        rest = [x for x in trace[i + 1 :] if x[0] in ("send", "close", "open", "hook") + gate]
+                        if rest[:2] != [("send", "client", b"\x01\x01"), ("close", "client")]:
+                            bad.setdefault("failed authentication is not answered with 01 01 and closing the client connection", tag + f": {rest[:3]}")
+                        if len(rest) > 2:
+                            bad.setdefault("request processing continues after a failed authentication", tag + f": {rest[2:5]}")
+                elif e[0] in gate and not authed:
+                    bad.setdefault(f"{e[0]} reached without a successful Socks5AuthHook", tag)
+                elif e[0] == "send" and e[1] == "client" and i == next((j for j, x in enumerate(trace) if x[0] == "send"), -1):
+                    if e[2][:2] == b"\x05\xff":
+                        n_nomethod += 1
+                    elif e[2][:2] != b"\x05\x02":
+                        bad.setdefault(f"method selection {e[2][:2].hex(' ')} offered although proxyauth is set", tag)
+            if any(st.addr_writes for st in steps) and not authed:
+                bad.setdefault("context.server.address is set without a successful Socks5AuthHook", tag)
+            if final == "child" and not authed:
+                bad.setdefault("the connection is handed to the next layer without a successful Socks5AuthHook", tag)
+            if refused_at is not None and final != "done":
+                bad.setdefault("failed authentication does not end the layer (later data is still processed)", tag)
+    ctx.paths += n_runs
+    ctx.functions.update(f"{rel}::{q}" for rel, q in world.it.seen_funcs if rel == MODES)
+    if not bad:
+        ctx.require(n_deny >= 20 and n_ok >= 20 and n_nomethod >= 2, f"SOCKS5 deny-mode domain lost its coverage (refused hooks={n_deny}, accepted={n_ok}, no acceptable method={n_nomethod})")
+    for msg, tag in sorted(bad.items()):
+        ctx.fail("R20.2", where, "SOCKS5: " + msg, "an unauthenticated SOCKS5 client gets further than the authentication step - first case: " + tag)
+    if not bad:
+        ctx.ok("R20.2", f"SOCKS5: {n_runs} interpreted runs with proxyauth set; only method 02 offered; destination / OpenConnection / next layer only after a Socks5AuthHook "
+               f"with accepted credentials ({n_ok}); {n_deny} refusals => 01 01, close, layer ended")
+    ctx.bounds.append("R20.2 SOCKS5: the streams of the shared SOCKS5 domain that run with proxyauth (+ each with a hook refusing everything) and 7 bypass attempts; whole, byte-by-byte, "
+                      "message boundaries and single cuts")
+
+
+# ---------------------------------------------------------------------------------------------------
+# R20.3 / R20.4 decision tables of ProxyAuth: the hook methods are interpreted on concrete flows
+
+
+def b64(s: str) -> str:
+    import base64
+
+    return base64.b64encode(s.encode("utf8")).decode("ascii")
+
+
+VALID = ("user", "p:w")
+HEADER_VALUES = {
+    "none": None,
+    "empty": "",
+    "scheme only": "Basic",
+    "malformed base64": "Basic !!!notbase64",
+    "three words": "Basic " + b64("user:p:w") + " x",
+    "other scheme": "Digest " + b64("user:p:w"),
+    "no colon": "Basic " + b64("userp"),
+    "wrong password": "Basic " + b64("user:nope"),
+    "password is a prefix": "Basic " + b64("user:p"),
+    "valid": "Basic " + b64("user:p:w"),
+    "valid, lower-case scheme": "basic " + b64("user:p:w"),
+}
+ACCEPTED = ("valid", "valid, lower-case scheme")
+MS = "mitmproxy/proxy/mode_specs.py"
+HTTPREL = "mitmproxy/http.py"
+
+
+def mode_record(name, ancestors):
+    """A ProxyMode instance: bound to the repository class (properties / methods are interpreted), with the dataclass fields of ProxyMode
+    and the ``type_name`` its ``__init_subclass__`` derives from the class name (trusted re-statement: ``XyzMode`` -> ``xyz``)."""
+    tn = name.removesuffix("Mode").lower()
+    return Rec(name, _bases=tuple(ancestors[1:]), _impl=(MS, name), type_name=tn, full_spec=tn, data="", custom_listen_host=None, custom_listen_port=None)
+
+
+class AuthWorld:
+    """Interprets ProxyAuth's hook methods on concrete flows.  ``validator``: None | 'exact' (accepts VALID) | 'raises' | a callable."""
+
+    def __init__(self, ctx):
+        import base64
+        import binascii
+
+        self.model = ctx.model
+        self.calls = []
+
+        def make(status_code=200, content=b"", headers=()):
+            return Rec("Response", _name="response", status_code=status_code, headers=dict(headers) if isinstance(headers, dict) else headers, content=content)
+
+        make._abstract_ok = True
+        self.it = LayerInterp(ctx.model, trusted_modules={"binascii": binascii, "base64": base64, "weakref": __import__("weakref"), "re": __import__("re")},
+                              externals={"http.Response.make": make})
+        self.it.overrides[(HTTPREL, "Response")] = _NS(make=make)
+        self.it.overrides[(PA, "Response")] = _NS(make=make)
+        self.anc = {}
+
+    def mode(self, name):
+        if name not in self.anc:
+            self.anc[name] = [c.name for _, c in self.model.mro(MS, name)]
+        return mode_record(name, self.anc[name])
+
+    def is_proxy(self, name):
+        self.mode(name)
+        return bool({"RegularMode", "UpstreamMode"} & set(self.anc[name]))
+
+    def validator(self, kind):
+        if kind is None or callable(kind):
+            return kind
+        if kind == "exact":
+            def v(u, p):
+                self.calls.append((u, p))
+                return (u, p) == VALID
+            return v
+        if kind == "raises":
+            def r(u, p):
+                self.calls.append((u, p))
+                raise RuntimeError("validator backend down")
+            return r
+        raise ValueError(kind)
+
+    def addon(self, validator, conn=None, authd=False):
+        a = Rec("ProxyAuth", _impl=(PA, "ProxyAuth"), _name="addon", validator=self.validator(validator), authenticated=DictRec("WeakKeyDictionary", {}, _name="self.authenticated"))
+        if authd:
+            a.authenticated._items[conn] = ("someone", "earlier")
+        return a
+
+    def conn(self, mode, name="client_conn"):
+        return OpenRec("Client", _bases=("Connection",), _name=name, proxy_mode=self.mode(mode))
+
+    def flow(self, conn, headers: dict, replay=None, method="GET"):
+        h = DictRec("Headers", dict(headers), case_insensitive=True, _name="request.headers")
+        req = OpenRec("Request", _name="flow.request", headers=h, method=method, host="example.com", port=443, scheme="https", authority="example.com:443", path="/")
+        return OpenRec("HTTPFlow", _bases=("Flow",), _name="flow", request=req, response=None, client_conn=conn, metadata=DictRec("dict", {}, _name="flow.metadata"), is_replay=replay, live=True,
+                       server_conn=OpenRec("Server", _name="server_conn", via=None, address=None))
+
+    def call(self, addon, method, arg):
+        """-> ('returned', value) | ('raised', name)"""
+        self.calls.clear()
+        try:
+            return ("returned", self.it.method(addon, method, arg))
+        except Raised as r:
+            return ("raised", r.name)
+
+
+def header_names(is_proxy):
+    return ("Proxy-Authorization", "Authorization") if is_proxy else ("Authorization", "Proxy-Authorization")
+
+
+def has_header(flow, name):
+    return name.lower() in {k.lower() for k in flow.request.headers._items}
+
+
 def r20_3(ctx):
-    m = ctx.model
     modes = mode_classes(ctx)
     for need in ("RegularMode", "UpstreamMode", "ReverseMode", "TransparentMode", "Socks5Mode"):
         ctx.require(need in modes, f"mode_specs.{need} vanished")
-    status_consts = {}
-    for name in ("PROXY_AUTH_REQUIRED", "UNAUTHORIZED"):
-        status_consts[name] = m.literal(STATUS, name)
-    ctx.check(status_consts == {"PROXY_AUTH_REQUIRED": 407, "UNAUTHORIZED": 401}, "R20.3", (STATUS, "<module>", 0), "PROXY_AUTH_REQUIRED=407, UNAUTHORIZED=401",
-              f"status code constants changed: {status_consts}", desc="status_codes: 407 / 401")
-    for fnm in ("is_http_proxy", "http_auth_header", "make_auth_required_response", "parse_http_basic_auth"):
-        ctx.func(PA, fnm)
-    fns = {q: ctx.func(PA, f"ProxyAuth.{q}") for q in ("requestheaders", "http_connect", "socks5_auth", "authenticate_http")}
-    for q, fn in fns.items():
-        AuthTableSpec(m, {}, status_consts).vet(fn)
-    bad = 0
-
-    def fail(q, cell, msg):
-        nonlocal bad
-        bad += 1
-        short = ",".join(f"{k}={cell[k]}" for k in sorted(cell) if k != "mode") + f",mode={cell.get('mode')}"
-        ctx.fail("R20.3", (PA, f"ProxyAuth.{q}", fns[q]), f"{q}: {msg}", f"first cell: {short}", cell=cell)
-
+    fns = {q: ctx.func(PA, f"ProxyAuth.{q}") for q in ("requestheaders", "http_connect", "socks5_auth")}
+    if ctx.model.has(PA, "ProxyAuth.authenticate_http"):  # a helper, not a hook: tabulated as long as it exists under this name
+        fns["authenticate_http"] = ctx.func(PA, "ProxyAuth.authenticate_http")
+    w = AuthWorld(ctx)
     reported = set()
+    cells = 0
 
-    def once(q, cell, msg):
+    def once(q, msg, cell):
         if (q, msg) not in reported:
             reported.add((q, msg))
-            fail(q, cell, msg)
+            ctx.fail("R20.3", (PA, f"ProxyAuth.{q}", fns[q]), f"{q}: {msg}", f"first cell: {cell}")
 
-    # --- methods taking a flow
-    for q in ("authenticate_http", "requestheaders", "http_connect"):
-        fn = fns[q]
-        params = [a.arg for a in fn.args.args]
-        ctx.require(len(params) == 2, f"ProxyAuth.{q}: unexpected signature {params}")
-        for validator in (True, False):
-            if q == "authenticate_http" and not validator:
-                continue  # asserted by the function itself
-            for accepts in (True, False):
-                for authd in (True, False) if q == "requestheaders" else (False,):
-                    for replay in (True, False) if q == "requestheaders" else (False,):
-                        for mode in modes:
-                            cell = {"validator": validator, "accepts": accepts, "authd": authd, "replay": replay, "mode": mode}
-                            spec = AuthTableSpec(m, cell, status_consts)
-                            finals = run_all(spec, fn, {params[1]: OBJ("root", "flow")})
-                            ctx.cells += 1
-                            for p in spec.problems:
-                                once(q, cell, p)
-                            must_auth = validator and not (q == "requestheaders" and (authd or replay))
-                            kinds = []
-                            for how, s in finals:
-                                if how != "return":
-                                    once(q, cell, f"{how} escapes")
+    for q in [x for x in ("authenticate_http", "requestheaders", "http_connect") if x in fns]:
+        for validator in (("exact", "raises") if q == "authenticate_http" else (None, "exact", "raises")):
+            for mode in modes:
+                is_proxy = w.is_proxy(mode)
+                hdr, other = header_names(is_proxy)
+                want_status, want_challenge = (407, "Proxy-Authenticate") if is_proxy else (401, "WWW-Authenticate")
+                for authd in ((False, True) if q == "requestheaders" else (False,)):
+                    for replay in ((None, "request") if q == "requestheaders" else (None,)):
+                        placements = [(k, {hdr: v} if v is not None else {}) for k, v in HEADER_VALUES.items()]
+                        placements.append(("valid, in the other header", {other: HEADER_VALUES["valid"]}))
+                        placements.append(("valid, garbage in the other header", {hdr: HEADER_VALUES["valid"], other: "Basic !!!"}))
+                        placements.append(("wrong, valid in the other header", {hdr: HEADER_VALUES["wrong password"], other: HEADER_VALUES["valid"]}))
+                        for cred, headers in placements:
+                            cells += 1
+                            conn = w.conn(mode)
+                            addon = w.addon(validator, conn, authd)
+                            flow = w.flow(conn, dict(headers, Host="example.com"), replay, "CONNECT" if q == "http_connect" else "GET")
+                            cell = f"validator={validator}, mode={mode}, credentials={cred}, connection authenticated before={authd}, replay={replay}"
+                            before = dict(addon.authenticated._items)
+                            how, ret = w.call(addon, q, flow)
+                            resp = flow.response
+                            wrote = {k: v for k, v in addon.authenticated._items.items() if before.get(k) is not v}
+                            if how == "raised":
+                                once(q, f"{ret} escapes", cell)
+                                continue
+                            must_auth = validator is not None and not (q == "requestheaders" and (authd or replay))
+                            accept = must_auth and validator == "exact" and (cred in ACCEPTED or cred == "valid, garbage in the other header")
+                            if not must_auth:
+                                if resp is not None:
+                                    once(q, "refuses although it must not authenticate (no validator / authenticated connection / replay)", cell)
+                                if wrote:
+                                    once(q, "marks the connection authenticated without authenticating", cell)
+                                if validator is None and not all(has_header(flow, k) for k in headers):
+                                    once(q, "removes a credential header although proxyauth is not configured", cell)
+                                continue
+                            if accept:
+                                if resp is not None:
+                                    once(q, "validator-accepted credentials are refused", cell)
                                     continue
-                                k = classify(s.trace, cell)
-                                exc = any(e == ("except",) for e in s.trace)
-                                ret = s.get("$ret")
-                                wrote_authd = any(e == ("authd:=",) for e in s.trace)
-                                kinds.append((k, exc))
-                                if k.startswith("bad"):
-                                    once(q, cell, k[5:])
+                                if has_header(flow, hdr):
+                                    once(q, f"the credential header {hdr} is not removed before the request is forwarded", cell)
+                                if other in headers and not has_header(flow, other):
+                                    once(q, f"removes {other}, which is not the credential header of this mode", cell)
+                                if q == "authenticate_http" and not ret:
+                                    once(q, "returns a false value although the credentials were accepted", cell)
+                                if q == "http_connect" and conn not in wrote:
+                                    once(q, "accepted CONNECT does not mark the connection authenticated", cell)
+                                if q != "http_connect" and wrote:
+                                    once(q, "self.authenticated is written by a method other than http_connect / socks5_auth", cell)
+                            else:
+                                if resp is None:
+                                    once(q, "a request without accepted credentials is let through (no auth-required response)", cell)
                                     continue
-                                if not must_auth:
-                                    if k != "skip":
-                                        once(q, cell, f"authenticates / refuses although it must skip ({k})")
-                                    if wrote_authd:
-                                        once(q, cell, "marks the connection authenticated without validator")
-                                    continue
-                                if k == "skip":
-                                    once(q, cell, "a path neither accepts nor refuses: authentication is skipped")
-                                if k == "accept" and (exc or not accepts):
-                                    once(q, cell, "credentials are accepted although the validator refused them or parsing failed")
-                                if q == "authenticate_http" and ((k == "accept") != (ret == C(True)) or (k == "reject") != (ret == C(False))):
-                                    once(q, cell, f"return value {ret} does not match the outcome {k}")
-                                if wrote_authd and not (q == "http_connect" and k == "accept"):
-                                    once(q, cell, f"self.authenticated is written on a {k} path of {q}")
-                                if q == "http_connect" and k == "accept" and not wrote_authd:
-                                    once(q, cell, "accepted CONNECT does not mark the connection authenticated")
-                            if must_auth and accepts and ("accept", False) not in kinds:
-                                once(q, cell, "validator-accepted credentials are not accepted on the exception-free path")
-                            if len(ctx.samples) < 3 and must_auth and accepts:
-                                ctx.sample({"method": q, "cell": cell, "paths": [f"{k}{' (exception)' if x else ''}" for k, x in kinds]})
-    # --- socks5_auth
-    fn = fns["socks5_auth"]
-    params = [a.arg for a in fn.args.args]
-    ctx.require(len(params) == 2, f"ProxyAuth.socks5_auth: unexpected signature {params}")
-    for validator in (True, False):
-        for accepts in (True, False):
-            cell = {"validator": validator, "accepts": accepts, "authd": False, "replay": False, "mode": "Socks5Mode"}
-            spec = AuthTableSpec(m, cell, status_consts)
-            finals = run_all(spec, fn, {params[1]: OBJ("root", "data")})
-            ctx.cells += 1
-            for p in spec.problems:
-                once("socks5_auth", cell, p)
-            for how, s in finals:
-                if how != "return":
-                    once("socks5_auth", cell, f"{how} escapes")
-                    continue
-                valid = [e[1] for e in s.trace if e[0] == "valid:="]
-                wrote = any(e == ("authd:=",) for e in s.trace)
-                ok = validator and accepts
-                if (valid == [True]) != ok or (valid not in ([], [True])):
-                    once("socks5_auth", cell, f"data.valid writes {valid} for validator={validator} accepts={accepts}")
-                if wrote != ok:
-                    once("socks5_auth", cell, f"self.authenticated written={wrote} for validator={validator} accepts={accepts}")
-    if not bad:
-        ctx.ok("R20.3", f"ProxyAuth tables: {ctx.cells} cells over validator x accepted x authenticated x replay x {len(modes)} modes agree")
+                                sc = resp.__dict__.get("status_code")
+                                hs = resp.__dict__.get("headers")
+                                names = {str(k).lower() for k in (hs.keys() if isinstance(hs, dict) else [])}
+                                if sc != want_status or want_challenge.lower() not in names:
+                                    once(q, f"refusal answers {sc} with headers {sorted(names)} instead of {want_status} with {want_challenge}", cell)
+                                if wrote:
+                                    once(q, "the connection is marked authenticated although the credentials were refused", cell)
+                                if q == "authenticate_http" and ret:
+                                    once(q, "returns a true value although the credentials were refused", cell)
+    # socks5_auth
+    for validator in (None, "exact", "raises"):
+        for user, password in (VALID, ("user", "nope"), ("user", "p"), ("", "")):
+            cells += 1
+            conn = w.conn("Socks5Mode")
+            addon = w.addon(validator, conn)
+            data = Rec("Socks5AuthData", _name="data", client_conn=conn, username=user, password=password, valid=False)
+            cell = f"validator={validator}, credentials=({user!r}, {password!r})"
+            how, ret = w.call(addon, "socks5_auth", data)
+            ok = validator == "exact" and (user, password) == VALID
+            if data.valid is not False and data.valid is not True:
+                once("socks5_auth", f"data.valid is set to {data.valid!r}", cell)
+            if bool(data.valid) != ok:
+                once("socks5_auth", f"data.valid is {data.valid} for credentials the validator {'accepts' if ok else 'does not accept'}", cell)
+            if (conn in addon.authenticated._items) != ok:
+                once("socks5_auth", f"self.authenticated written={conn in addon.authenticated._items} for credentials the validator {'accepts' if ok else 'does not accept'}", cell)
+            if how == "raised" and validator != "raises":
+                once("socks5_auth", f"{ret} escapes", cell)
+    ctx.cells += cells
+    ctx.functions.update(f"{rel}::{q}" for rel, q in w.it.seen_funcs if rel == PA)
+    if not reported:
+        ctx.ok("R20.3", f"ProxyAuth tables: {cells} interpreted cells over method x validator x {len(modes)} modes x {len(HEADER_VALUES) + 3} credential placements x authenticated x replay agree")
 
 
 # ---------------------------------------------------------------------------------------------------
@@ -617,45 +574,30 @@ def r20_3(ctx):
 
 
 def r20_4(ctx):
-    fn = ctx.func(PA, "parse_http_basic_auth")
-    where = (PA, "parse_http_basic_auth", fn)
-    rets = [n for n in walk_in_order(fn) if isinstance(n, ast.Return) and n.value is not None]
-    ctx.require(len(rets) == 1 and isinstance(rets[0].value, ast.Tuple) and len(rets[0].value.elts) == 3 and all(isinstance(e, ast.Name) for e in rets[0].value.elts),
-                "parse_http_basic_auth no longer returns (scheme, user, password) names")
-    user, pw = rets[0].value.elts[1].id, rets[0].value.elts[2].id
-    assigns = []
-    for n in walk_in_order(fn):
-        if isinstance(n, ast.Assign) and len(n.targets) == 1 and isinstance(n.targets[0], (ast.Tuple, ast.List)):
-            names = [getattr(e, "id", None) for e in n.targets[0].elts]
-            if user in names or pw in names:
-                assigns.append((n, names))
-    ctx.require(len(assigns) == 1, f"parse_http_basic_auth: user/password are bound by {len(assigns)} unpacking assignments (the rule models one)")
-    node, names = assigns[0]
-    call = node.value
-    ctx.require(isinstance(call, ast.Call) and isinstance(call.func, ast.Attribute), f"parse_http_basic_auth: unmodelled credential split {norm(node)}")
-    recv = ast.unparse(call.func.value)
-    ctx.require("a2b_base64" in recv or "b64decode" in recv, f"parse_http_basic_auth: the split is not applied to the decoded credentials: {norm(call)}")
-    meth = call.func.attr
-    sep = call.args[0] if call.args else None
-    ctx.require(isinstance(sep, ast.Constant) and sep.value in (":", b":"), f"parse_http_basic_auth: unmodelled separator in {norm(call)}")
-    maxsplit = None
-    if len(call.args) >= 2:
-        maxsplit = call.args[1]
-    for k in call.keywords:
-        if k.arg == "maxsplit":
-            maxsplit = k.value
-    if meth == "split":
-        ok = isinstance(maxsplit, ast.Constant) and maxsplit.value == 1 and names == [user, pw]
-        why = "split(':') without maxsplit=1 raises on a password containing ':' (valid credentials refused on HTTP paths only)"
-    elif meth == "partition":
-        ok = len(names) == 3 and names[0] == user and names[2] == pw
-        why = "partition result is not unpacked as (user, _, password)"
-    elif meth in ("rsplit", "rpartition"):
-        ok = False
-        why = f"{meth} splits at the LAST colon: a password containing ':' is cut into the user name"
-    else:
-        raise AnalysisError(f"parse_http_basic_auth: unmodelled split idiom {norm(call)}")
-    ctx.check(ok, "R20.4", where, f"credentials split: .{meth}({', '.join(norm(a) for a in call.args)})", why, desc=f"decoded credentials split at the first colon only: .{meth}(...)")
+    fn = ctx.func(PA, "ProxyAuth.requestheaders")
+    where = (PA, "ProxyAuth.requestheaders", fn)
+    w = AuthWorld(ctx)
+    pairs = [("user", "p:w"), ("user", ":"), ("user", "a:b:c"), ("user", "p:"), ("u", "::"), ("user", "plain"), ("user", ""), ("üser", "pä:ß")]
+    bad = []
+    for mode in ("RegularMode", "ReverseMode"):
+        hdr = header_names(w.is_proxy(mode))[0]
+        for user, password in pairs:
+            ctx.cells += 1
+            got = []
+
+            def rec(u, p):
+                got.append((u, p))
+                return True
+
+            conn = w.conn(mode)
+            flow = w.flow(conn, {hdr: "Basic " + b64(f"{user}:{password}")})
+            how, ret = w.call(w.addon(rec, conn), "requestheaders", flow)
+            if got != [(user, password)] or how != "returned" or flow.response is not None:
+                bad.append(f"{mode}: credentials ({user!r}, {password!r}) reach the validator as {got if got else 'nothing (parsing failed)'}"
+                           + ("" if flow.response is None else " and the request is refused"))
+    ctx.check(not bad, "R20.4", where, "Basic credentials are split at the first colon only",
+              "a password containing ':' is cut at the wrong colon or refused (valid credentials refused on HTTP paths only): " + "; ".join(bad[:2]),
+              desc=f"decoded credentials are split at the first colon only: {len(pairs)} (user, password) pairs x 2 modes reach the validator unchanged")
 
 
 # ---------------------------------------------------------------------------------------------------
@@ -672,26 +614,28 @@ def r20_7(ctx):
     import binascii
     import itertools
 
-    from ..pyint import DictRec
-    from ..pyint import Interp
-    from ..pyint import Raised
-    from ..pyint import Rec
+    def make_response(status_code=200, content=b"", headers=()):
+        return Rec("Response", status_code=status_code, headers=headers, content=content)
 
-    VALID = ("user", "p:w")
+    make_response._abstract_ok = True
     CREDS = {
         "none": None,
         "malformed": "Basic !!!notbase64",
         "wrong": "Basic " + base64.b64encode(b"user:nope").decode(),
         "valid": "Basic " + base64.b64encode(b"user:p:w").decode(),
     }
-    MS = "mitmproxy/proxy/mode_specs.py"
     modes = ["RegularMode", "UpstreamMode", "ReverseMode", "TransparentMode", "Socks5Mode"]
     steps_http = [("CONNECT", c) for c in CREDS] + [("REQUEST", c) for c in CREDS]
     steps_socks = [("SOCKS", "wrong"), ("SOCKS", "valid")]
-    fn = ctx.func(PA, "ProxyAuth.authenticate_http")
+    for hook in ("requestheaders", "http_connect", "socks5_auth"):
+        ctx.func(PA, f"ProxyAuth.{hook}")
     where = (PA, "ProxyAuth", ctx.model.cls(PA, "ProxyAuth"))
     bad = {}
     n = 0
+    interp = LayerInterp(ctx.model, trusted_modules={"binascii": binascii, "base64": base64, "weakref": __import__("weakref"), "re": __import__("re")},
+                         externals={"http.Response.make": make_response})
+    interp.overrides[(HTTPREL, "Response")] = _NS(make=make_response)
+    interp.overrides[(PA, "Response")] = _NS(make=make_response)
     for mode in modes:
         anc = [c.name for _, c in ctx.model.mro(MS, mode)]
         is_proxy = mode in ("RegularMode", "UpstreamMode")
@@ -703,9 +647,8 @@ def r20_7(ctx):
             kinds = [k for k in kinds if k[0] != "CONNECT"] + steps_socks
         for length in ((1, 2, 3) if ctx.tier == "thorough" else (1, 2)):
             for seq in itertools.product(kinds, repeat=length):
-                it = Interp(ctx.model, trusted_modules={"binascii": binascii, "base64": base64, "weakref": __import__("weakref"), "re": __import__("re")},
-                            externals={"http.Response.make": lambda status_code=200, content=b"", headers=(): Rec("Response", status_code=status_code, headers=headers, content=content)})
-                conn = Rec("Client", _name="client_conn", proxy_mode=Rec(mode, _bases=tuple(anc[1:]), _impl=(MS, mode)))
+                it = interp
+                conn = OpenRec("Client", _name="client_conn", proxy_mode=mode_record(mode, anc))
                 addon = Rec("ProxyAuth", _impl=(PA, "ProxyAuth"), validator=(lambda u, p: (u, p) == VALID), authenticated=DictRec("WeakKeyDictionary", {}, _name="self.authenticated"))
                 authed = False
                 hist = []
@@ -726,9 +669,9 @@ def r20_7(ctx):
                         headers = DictRec("Headers", {"Host": "example.com"}, case_insensitive=True, _name="request.headers")
                         if CREDS[cred] is not None:
                             headers._items[hdr] = CREDS[cred]
-                        req = Rec("Request", headers=headers, method="CONNECT" if kind == "CONNECT" else "GET", host="example.com", port=443, scheme="https", authority="example.com:443")
-                        f = Rec("HTTPFlow", _name="flow", request=req, response=None, client_conn=conn, metadata=DictRec("dict", {}, _name="flow.metadata"), is_replay=None, live=True,
-                                server_conn=Rec("Server", via=None, address=None))
+                        req = OpenRec("Request", _name="flow.request", headers=headers, method="CONNECT" if kind == "CONNECT" else "GET", host="example.com", port=443, scheme="https", authority="example.com:443")
+                        f = OpenRec("HTTPFlow", _name="flow", request=req, response=None, client_conn=conn, metadata=DictRec("dict", {}, _name="flow.metadata"), is_replay=None, live=True,
+                                    server_conn=OpenRec("Server", _name="server_conn", via=None, address=None))
                         try:
                             it.method(addon, "http_connect" if kind == "CONNECT" else "requestheaders", f)
                             status = getattr(f.response, "status_code", None) if f.response is not None else None
@@ -751,10 +694,10 @@ def r20_7(ctx):
                         break
                 else:
                     # probe: a request without credentials on ANOTHER connection is never let through
-                    other = Rec("Client", _name="other_conn", proxy_mode=conn.proxy_mode)
+                    other = OpenRec("Client", _name="other_conn", proxy_mode=conn.proxy_mode)
                     headers = DictRec("Headers", {"Host": "example.com"}, case_insensitive=True, _name="request.headers")
-                    f = Rec("HTTPFlow", _name="flow", request=Rec("Request", headers=headers, method="GET", host="example.com", port=80, scheme="http", authority=""), response=None,
-                            client_conn=other, metadata=DictRec("dict", {}, _name="flow.metadata"), is_replay=None, live=True, server_conn=Rec("Server", via=None, address=None))
+                    f = OpenRec("HTTPFlow", _name="flow", request=OpenRec("Request", _name="flow.request", headers=headers, method="GET", host="example.com", port=80, scheme="http", authority=""), response=None,
+                                client_conn=other, metadata=DictRec("dict", {}, _name="flow.metadata"), is_replay=None, live=True, server_conn=OpenRec("Server", _name="server_conn", via=None, address=None))
                     try:
                         it.method(addon, "requestheaders", f)
                         got = getattr(f.response, "status_code", None) if f.response is not None else None
@@ -772,6 +715,40 @@ def r20_7(ctx):
     ctx.bounds.append("R20.7: histories of at most 2 (quick) / 3 (thorough) hook invocations on one connection, plus a probe on a second connection")
 
 
+def addon_order(ctx):
+    """Class names of the addons ``default_addons()`` returns, in order: the function is interpreted with every addon constructor
+    replaced by a marker (any way of building the list is followed); the literal-list reading is the fallback."""
+    ctx.func(ADDONS_INIT, "default_addons")
+
+    class Names(LayerInterp):
+        def instantiate(self, c, args, kwargs, depth, where):
+            return Rec(c.node.name, _name=c.node.name)
+
+    try:
+        res = Names(ctx.model).call(ADDONS_INIT, "default_addons")
+        if isinstance(res, (list, tuple)) and res and all(isinstance(x, Rec) for x in res):
+            return [x._cls for x in res]
+    except (AnalysisError, Raised):
+        pass
+    return default_addon_order(ctx)
+
+
+def socks_data_default(ctx):
+    """``Socks5AuthData(conn, user, password).valid`` as the (interpreted) constructor leaves it."""
+    it = LayerInterp(ctx.model)
+    conn = OpenRec("Client", _name="client")
+    cref = ClassRef(ctx.model.module(MODES), ctx.model.cls(MODES, "Socks5AuthData"))
+    try:
+        try:
+            data = it.instantiate(cref, [conn, "user", "password"], {}, 0, "Socks5AuthData")
+        except Raised:
+            data = it.instantiate(cref, [], {"client_conn": conn, "username": "user", "password": "password"}, 0, "Socks5AuthData")
+    except Raised as r:
+        raise AnalysisError(f"Socks5AuthData(client_conn, username, password) cannot be constructed any more: {r}")
+    ctx.require(isinstance(data, Rec) and "valid" in data.__dict__, "Socks5AuthData.valid field vanished")
+    return data.__dict__["valid"]
+
+
 def check(ctx):
     ctx.rule("R20.7", "ProxyAuth hook methods interpreted over all histories (<= 3 steps) x credential classes x modes: only connections/requests with valid credentials pass")
     ctx.guard(r20_7, ctx)
@@ -784,22 +761,21 @@ def check(ctx):
     ctx.trust("addon manager dispatches a hook to the addon method named after it; validators decide (username, password) correctly")
     m = ctx.model
     # R20.1
-    order = default_addon_order(ctx)
+    order = addon_order(ctx)
     ctx.check("ProxyAuth" in order, "R20.1", ("mitmproxy/addons/__init__.py", "default_addons", 0), "proxyauth.ProxyAuth() in default_addons",
               "the ProxyAuth addon is not loaded: the proxyauth option is never enforced", desc="ProxyAuth() in default_addons")
     m.cls(PA, "ProxyAuth")
     pairs = [(HK, "HttpRequestHeadersHook"), (HK, "HttpConnectHook"), (MODES, "Socks5AuthHook")]
     missing = False
     for rel, hook in pairs:
-        meth = hook_method(ctx, rel, hook)
+        meth = hook_method_sem(ctx, rel, hook)
         has = m.has(PA, f"ProxyAuth.{meth}")
         missing |= not has
         ctx.check(has, "R20.1", (PA, "ProxyAuth", m.cls(PA, "ProxyAuth")), f"ProxyAuth.{meth} <- {hook}", f"ProxyAuth does not implement {meth}: {hook} is never authenticated",
                   desc=f"ProxyAuth.{meth} <- {hook}")
     data = m.cls(MODES, "Socks5AuthData")
-    dflt = [s.value for s in data.body if isinstance(s, ast.AnnAssign) and isinstance(s.target, ast.Name) and s.target.id == "valid"]
-    ctx.require(len(dflt) == 1, "Socks5AuthData.valid field vanished")
-    ctx.check(isinstance(dflt[0], ast.Constant) and dflt[0].value is False, "R20.1", (MODES, "Socks5AuthData", data), "Socks5AuthData.valid default",
+    dflt = socks_data_default(ctx)
+    ctx.check(dflt is False, "R20.1", (MODES, "Socks5AuthData", data), "Socks5AuthData.valid default",
               "SOCKS5 credentials are valid unless an addon says otherwise", desc="Socks5AuthData.valid = False by default")
     ctx.expect_instances("R20.1", 5)
     # R20.5
@@ -816,7 +792,7 @@ def check(ctx):
     # R20.3
     if not missing:
         ctx.guard(r20_3, ctx)
-        ctx.expect_instances("R20.3", 2)
+        ctx.expect_instances("R20.3", 1)
     # R20.4
     ctx.guard(r20_4, ctx)
     ctx.expect_instances("R20.4", 1)
@@ -852,6 +828,10 @@ MUTANTS = [
     Mutant("challenge-header-swapped", PA, "        headers = {\"WWW-Authenticate\": f'Basic realm=\"{REALM}\"'}", "        headers = {\"Proxy-Authenticate\": f'Basic realm=\"{REALM}\"'}", "R20.3"),
     Mutant("connect-authenticated-without-check", PA, "        if self.validator and self.authenticate_http(f):\n", "        if self.validator and (self.authenticate_http(f) or True):\n", "R20.3"),
     Mutant("socks-auth-ignores-validator-result", PA, "        if self.validator and self.validator(data.username, data.password):", "        if self.validator:", "R20.3"),
+    Mutant("credentials-read-from-the-other-header", PA, "        auth_header = http_auth_header(is_proxy)\n", "        auth_header = http_auth_header(not is_proxy)\n", "R20.3"),
+    Mutant("validator-exception-not-caught", PA, "        except Exception:\n            pass\n\n        if is_valid:", "        except ValueError:\n            pass\n\n        if is_valid:", "R20.3"),
+    Mutant("socks-refusal-keeps-connection", MODES, "            yield commands.SendData(self.context.client, b\"\\x01\\x01\")\n            yield from self.socks_err(\"authentication failed\")\n            return\n",
+           "            yield commands.SendData(self.context.client, b\"\\x01\\x01\")\n            return\n", "R20.2"),
     Mutant("F-C20-split-every-colon", PA, "            .split(\":\", 1)\n", "            .split(\":\")\n", "R20.4"),
     Mutant("split-at-last-colon", PA, "            .split(\":\", 1)\n", "            .rsplit(\":\", 1)\n", "R20.4"),
     Mutant("upstreamauth-before-proxyauth", "mitmproxy/addons/__init__.py", "        proxyauth.ProxyAuth(),\n        proxyserver.Proxyserver(),", "        upstream_auth.UpstreamAuth(),\n        proxyauth.ProxyAuth(),\n        proxyserver.Proxyserver(),", "R20.5"),
